@@ -50,6 +50,10 @@ fn payloads(tier: Tier) -> Vec<(&'static str, Arc<Vec<u8>>)> {
         ("empty", Arc::new(vec![])),
         ("one", Arc::new(b"Z".to_vec())),
         ("inc300", Arc::new(lcg_bytes(300, 1))),
+        // stored-block streams whose first two octets happen to look like a zlib header (01 17, 01 36, 01 55)
+        ("len23", Arc::new(lcg_bytes(23, 3))),
+        ("len54", Arc::new(lcg_bytes(54, 4))),
+        ("len85", Arc::new(lcg_bytes(85, 5))),
         ("rep300", Arc::new(b"abc".repeat(100))),
         ("big70k", Arc::new(mixed(70000))),
         ("json", Arc::new(JSON_PAYLOAD.to_vec())),
@@ -260,6 +264,7 @@ fn spellings(c: Coding) -> Vec<(&'static str, &'static str)> {
             ("Content-Encoding", "GZip"),
             ("Content-Encoding", "identity,\tgzip"),
             ("Content-Encoding", "identity|gzip"),
+            ("Content-Encoding", "gzip, identity"),
             ("Transfer-Encoding", "gzip, chunked"),
         ],
         Coding::Deflate => vec![
@@ -269,6 +274,7 @@ fn spellings(c: Coding) -> Vec<(&'static str, &'static str)> {
             ("Content-Encoding", "DEFLATE"),
             ("Content-Encoding", "identity ,\t deflate"),
             ("content-encoding", "identity|Deflate"),
+            ("Content-Encoding", "Deflate,identity"),
             ("Transfer-Encoding", "deflate, chunked"),
         ],
     }
